@@ -312,4 +312,43 @@ theorem first_true_or_none (p : Nat → Bool) :
       · right; exact ⟨n + 1, Nat.le_refl _, h, fun i hi => hall i (by omega)⟩
     · right; exact ⟨j, by omega, hpj, hlt⟩
 
+/-- The bounded loop, all iterations completing normally and `stop` always evaluating: either it
+    ends at the first iteration whose post-execution `stop` is true, or `stop` was false after all
+    of iterations `k .. max` and it ends there — with the loop-exhausted error iff `errorOnMax`. -/
+theorem whileIter_bounded_outcome (cfg : WhileCfg) (fr : Frame) (inner : Frame → Body) (max : Option Nat)
+    (sleep : Num) (eom : Bool) (hb : whileBounded max = true) (n k : Nat) (s : St) (fuel : Nat)
+    (hf : n < fuel) (hk : k + n = max.getD 0)
+    (hok : ∀ i, i ≤ n → (whileOut fr inner sleep i k s).2 = .ok)
+    (hst : ∀ i, i ≤ n → ∃ b, stopEval cfg (whileOut fr inner sleep i k s).1 = .ok b) :
+    (∃ j, j ≤ n ∧ (∀ i, i < j → stopEval cfg (whileOut fr inner sleep i k s).1 = .ok false) ∧
+        stopEval cfg (whileOut fr inner sleep j k s).1 = .ok true ∧
+        whileIter cfg fr inner max sleep eom fuel k s = ((whileOut fr inner sleep j k s).1, .ok)) ∨
+    ((∀ i, i ≤ n → stopEval cfg (whileOut fr inner sleep i k s).1 = .ok false) ∧
+        whileIter cfg fr inner max sleep eom fuel k s =
+          (if eom then loopExhausted (whileOut fr inner sleep n k s).1
+           else ((whileOut fr inner sleep n k s).1, .ok))) := by
+  let p : Nat → Bool := fun i =>
+    match stopEval cfg (whileOut fr inner sleep i k s).1 with
+    | .ok b => b
+    | .error _ => false
+  have hp : ∀ i, i ≤ n → stopEval cfg (whileOut fr inner sleep i k s).1 = .ok (p i) := by
+    intro i hi
+    obtain ⟨b, hb'⟩ := hst i hi
+    show _ = Except.ok (match stopEval cfg (whileOut fr inner sleep i k s).1 with
+      | .ok b => b
+      | .error _ => false)
+    rw [hb']
+  rcases first_true_or_none p n with hall | ⟨j, hj, hpj, hlt⟩
+  · right
+    have hns : ∀ i, i ≤ n → stopEval cfg (whileOut fr inner sleep i k s).1 = .ok false := by
+      intro i hi; rw [hp i hi, hall i hi]
+    exact ⟨hns, whileIter_exhausted cfg fr inner max sleep eom hb n k s fuel hf hk hok hns⟩
+  · left
+    have hns : ∀ i, i < j → stopEval cfg (whileOut fr inner sleep i k s).1 = .ok false := by
+      intro i hi; rw [hp i (by omega), hlt i hi]
+    have hstop : stopEval cfg (whileOut fr inner sleep j k s).1 = .ok true := by rw [hp j hj, hpj]
+    exact ⟨j, hj, hns, hstop,
+      whileIter_first_stop cfg fr inner max sleep eom j k s fuel (by omega)
+        (fun i hi => hok i (by omega)) hns hstop (fun _ => by omega)⟩
+
 end Pypyr.C05
